@@ -18,7 +18,7 @@ ID = 'C08'
 LEVEL = 'exploration'
 TIERS = {
     'quick': {'subseeds': 32, 'examples': 14, 'steps': 22, 'wall_budget': 240, 'min_runs': 200, 'task_timeout': 900},
-    'thorough': {'subseeds': 640, 'examples': 60, 'steps': 30, 'wall_budget': 3300, 'min_runs': 400,
+    'thorough': {'subseeds': 480, 'examples': 36, 'steps': 26, 'wall_budget': 2400, 'min_runs': 300,
                  'task_timeout': 3000},
 }
 RULE = ('one case = one history (sequence of <= N operations drawn by a Hypothesis rule-based state machine under '
@@ -160,6 +160,8 @@ class CondModel:
     def apply(self, op):
         k = op['op']
         act = self.active()
+        if self.cursor['GLOBAL'] > 0x3f0 and k in ('marker', 'sym_use', 'use_const', 'use_label', 'usezone'):
+            return None          # keep GLOBAL's bytes clear of the zones (overlap is C04's business)
         if k == 'if':
             if not self.cond_ok(op['cond']) or len(self.frames) >= 4:
                 return None
@@ -285,7 +287,7 @@ class CondModel:
         if k == 'mkzone':
             if op['name'] in self.zones:
                 return None
-            start = 0x40 + 0x10 * op['idx']
+            start = 0x400 + 0x10 * op['idx']      # far above anything a history can place in GLOBAL
             if act:
                 self.zones[op['name']] = start
                 self.cursor[op['name']] = start
@@ -295,7 +297,7 @@ class CondModel:
             if not act:
                 return 'keep', lines
             if op['name'] == 'GLOBAL' or op['name'] in self.zones:
-                if self.cursor[op['name']] > (0x3f if op['name'] == 'GLOBAL' else self.zones[op['name']] + 14):
+                if self.cursor[op['name']] > (0x3f0 if op['name'] == 'GLOBAL' else self.zones[op['name']] + 14):
                     return None
                 self.zone = op['name']
                 self.emit(op['k'])
